@@ -37,6 +37,16 @@ pub fn mark_job_as_done(sh: &mut shell::Shell, gid: i32, pid: i32, reason: &str)
             println_stderr!("");
             print_job(&job);
         }
+    } else if !sh.jobs.is_empty() {
+        // the job has other processes left: if all of them are stopped,
+        // the job as a whole is stopped now.
+        let all_stopped = match sh.get_job_by_gid(gid) {
+            Some(job) => job.status != "Stopped" && job.all_members_stopped(),
+            None => false,
+        };
+        if all_stopped {
+            mark_job_as_stopped(sh, gid, false);
+        }
     }
 }
 
